@@ -38,7 +38,7 @@ func (v vmsg) encode() string {
 	return m.String()
 }
 
-var c19Ops = []string{"AppendData", "AppendComment", "SetID", "Clone"}
+var c19Ops = []string{"AppendData", "AppendComment", "SetID", "Clone", "UnmarshalText"}
 
 // runCloneSeq applies a sequence of operations (op*3+target) to a family of at most 3 messages and to the
 // value model; after every step every message must encode like its model.
@@ -67,6 +67,13 @@ func runCloneSeq(seq []uint8) string {
 			}
 			real = append(real, real[tgt].Clone())
 			model = append(model, model[tgt].clone())
+		case 4:
+			// decode a new event into an existing message (what a relay does): the target becomes that event,
+			// nobody else may notice
+			if err := real[tgt].UnmarshalText([]byte("data: " + x + "\n: " + x + "\ndata: u\n\n")); err != nil {
+				return "UnmarshalText failed: " + err.Error()
+			}
+			model[tgt] = vmsg{lines: []string{"d:" + x, "c:" + x, "d:u"}}
 		}
 		for i := range real {
 			if got, want := real[i].String(), model[i].encode(); got != want {
@@ -97,7 +104,8 @@ func checkPut(k *collector, valid, auto bool, times int, withData int) {
 		f, _ := sse.NewFiniteReplayer(2, auto)
 		r = f
 	}
-	m := &sse.Message{}
+	m := &sse.Message{Type: sse.Type("kind"), Retry: 3 * time.Second}
+	m.AppendComment("note")
 	for i := 0; i < withData; i++ {
 		m.AppendData("d" + strconv.Itoa(i))
 	}
@@ -120,6 +128,17 @@ func checkPut(k *collector, valid, auto bool, times int, withData int) {
 		}
 		if auto && out == m {
 			k.fail("C19: with automatic IDs Put returns the caller's own message", what, what)
+			return
+		}
+		// the publication is a faithful copy: everything but the ID is what the caller published
+		strip := func(s string) string {
+			if strings.HasPrefix(s, "id: ") {
+				return s[strings.IndexByte(s, '\n')+1:]
+			}
+			return s
+		}
+		if strip(out.String()) != strip(before) || out.Type != m.Type || out.Retry != m.Retry {
+			k.fail("C19: the message returned by Put is not a faithful copy of the published one", fmt.Sprintf("%s: published %q, Put returned %q", what, before, out.String()), what)
 			return
 		}
 		outs = append(outs, out)
@@ -150,9 +169,9 @@ func checkPut(k *collector, valid, auto bool, times int, withData int) {
 var C19 = &sqrun.Check{ID: "C19", QuickBudget: 60, ThoroughBudget: 600,
 	Run: func(c *sqrun.Ctx) *sqrun.Outcome {
 		k := &collector{c: c}
-		depth := 7
+		depth := 6
 		if c.Thorough {
-			depth = 8
+			depth = 7
 		}
 		nops := len(c19Ops) * 3
 		var seqs int64
@@ -191,7 +210,7 @@ var C19 = &sqrun.Check{ID: "C19", QuickBudget: 60, ThoroughBudget: 600,
 		cov := ev.Coverage{"evaluations": k.cases.Load(), "distinct_nontrivial": k.nontriv.Load(), "exhaustive": k.exhaustive(),
 			"clone_sequences": seqs, "depth": depth,
 			"samples": []any{describeSeq([]uint8{0, 0, 0, 9, 0, 1}), "replayer valid=false autoIDs=true, the same message (3 data lines) put 4 times"},
-			"rule":    fmt.Sprintf("every sequence of <= %d operations from {AppendData, AppendComment, set ID, Clone} x target message (family of at most 3 messages, clones of clones included), executed on real Messages and on a value model (copied slices); after every step every message must encode exactly like its model. Plus: one message put 1..6 times (0..5 data lines) through FiniteReplayer(2) and ValidReplayer in both ID modes: the caller's message stays byte-identical and unset, returned copies are independent, IDs consecutive, earlier publications keep their IDs (wrap-around of the finite buffer included). Publishing through Joe is covered by C04's oracle (IDs live = IDs returned by Put).", depth)}
+			"rule":    fmt.Sprintf("every sequence of <= %d operations from {AppendData, AppendComment, set ID, Clone, UnmarshalText of a new event} x target message (family of at most 3 messages, clones of clones included), executed on real Messages and on a value model (copied slices); after every step every message must encode exactly like its model. Plus: one message put 1..6 times (0..5 data lines) through FiniteReplayer(2) and ValidReplayer in both ID modes: the caller's message stays byte-identical and unset, returned copies are independent, IDs consecutive, earlier publications keep their IDs (wrap-around of the finite buffer included). Publishing through Joe is covered by C04's oracle (IDs live = IDs returned by Put).", depth)}
 		return &sqrun.Outcome{Level: "model_checking", Coverage: ev.Coverage(mergeMC(cov, seqs)), Assumptions: []string{"Message has no hidden state beyond what its encoding shows"}}
 	},
 }
